@@ -7,10 +7,21 @@ from . import common as C
 DFS = 'rscel/src/context/default_funcs/'
 TF = DFS + 'time_funcs/'
 
-STR_METHODS = ['contains', 'starts_with', 'ends_with', 'to_lowercase', 'to_uppercase', 'split', 'rsplit', 'map', 'collect', 'len', 'reverse']
+STR_METHODS = ['contains', 'starts_with', 'ends_with', 'to_lowercase', 'to_uppercase', 'split', 'rsplit', 'map', 'collect', 'len']
 TIME_METHODS = ['weekday', 'num_days_from_sunday', 'number_from_sunday', 'time', 'hour', 'minute', 'second', 'month0', 'day', 'ordinal0', 'year',
-                'timestamp_subsec_millis', 'num_hours', 'num_minutes', 'num_seconds', 'subsec_nanos', 'with_timezone']
+                'timestamp_subsec_millis', 'num_hours', 'num_minutes', 'num_seconds', 'subsec_nanos',
+                # not used by the code today; present so that a changed wrapper that reaches for them still type-checks and then fails its contract
+                'naive_utc', 'naive_local', 'to_utc', 'month', 'ordinal', 'day0', 'num_days_from_monday', 'number_from_monday', 'hour12', 'nanosecond',
+                'timestamp_subsec_micros', 'timestamp_subsec_nanos', 'num_milliseconds', 'num_days', 'subsec_millis', 'abs']
 TABLE = {m: 's_' + m for m in STR_METHODS + TIME_METHODS}
+for _m in ('contains', 'starts_with', 'ends_with', 'to_lowercase', 'to_uppercase', 'split', 'rsplit', 'len'):
+    TABLE[_m] = ('s_' + _m, 'ref')     # std takes &self: the receiver stays usable afterwards
+TABLE['is_char_boundary'] = ('s_is_char_boundary', 'ref')
+TABLE['map_err'] = 's_map_err'
+TABLE['into_bytes'] = 's_into_bytes'
+TABLE['as_slice'] = ('s_as_slice', 'ref')
+TABLE['into_owned'] = 's_into_owned'
+TABLE['split_at'] = ('s_split_at', 'ref')
 
 PRELUDE = r'''
 // ---- uninterpreted std string functions (what they compute is std's; assumed) -----------------------------------------------
@@ -29,58 +40,115 @@ impl MappedPieces { pub uninterp spec fn view(&self) -> Seq<Seq<char>>; }
 pub open spec fn strs_as_values(p: Seq<Seq<char>>, v: Seq<CelValue>) -> bool {
     v.len() == p.len() && forall|i: int| 0 <= i < v.len() ==> (#[trigger] v[i]) is String && v[i]->String_0@ == p[i]
 }
-#[verifier::external_body] pub fn s_contains(s: String, n: &String) -> (r: bool) ensures r == str_contains(s@, n@) { unimplemented!() }
-#[verifier::external_body] pub fn s_starts_with(s: String, n: &String) -> (r: bool) ensures r == str_starts_with(s@, n@) { unimplemented!() }
-#[verifier::external_body] pub fn s_ends_with(s: String, n: &String) -> (r: bool) ensures r == str_ends_with(s@, n@) { unimplemented!() }
-#[verifier::external_body] pub fn s_to_lowercase(s: String) -> (r: String) ensures r@ == str_lower(s@) { unimplemented!() }
-#[verifier::external_body] pub fn s_to_uppercase(s: String) -> (r: String) ensures r@ == str_upper(s@) { unimplemented!() }
-#[verifier::external_body] pub fn s_split(s: String, d: &String) -> (r: Pieces) ensures r@ == str_split(s@, d@) { unimplemented!() }
-#[verifier::external_body] pub fn s_rsplit(s: String, d: &String) -> (r: Pieces) ensures r@ == str_rsplit(s@, d@) { unimplemented!() }
+#[verifier::external_body] pub fn s_contains(s: &String, n: &String) -> (r: bool) ensures r == str_contains(s@, n@) { unimplemented!() }
+#[verifier::external_body] pub fn s_starts_with(s: &String, n: &String) -> (r: bool) ensures r == str_starts_with(s@, n@) { unimplemented!() }
+#[verifier::external_body] pub fn s_ends_with(s: &String, n: &String) -> (r: bool) ensures r == str_ends_with(s@, n@) { unimplemented!() }
+#[verifier::external_body] pub fn s_to_lowercase(s: &String) -> (r: String) ensures r@ == str_lower(s@) { unimplemented!() }
+#[verifier::external_body] pub fn s_to_uppercase(s: &String) -> (r: String) ensures r@ == str_upper(s@) { unimplemented!() }
+#[verifier::external_body] pub fn s_split(s: &String, d: &String) -> (r: Pieces) ensures r@ == str_split(s@, d@) { unimplemented!() }
+#[verifier::external_body] pub fn s_rsplit(s: &String, d: &String) -> (r: Pieces) ensures r@ == str_rsplit(s@, d@) { unimplemented!() }
 #[verifier::external_body] pub fn s_map<F: Fn(&str) -> CelValue>(p: Pieces, f: F) -> (r: MappedPieces) ensures r@ == p@ { unimplemented!() }   // the closure is `|s| s.into()` (str -> CelValue::String)
 #[verifier::external_body] pub fn s_collect(p: MappedPieces) -> (r: Vec<CelValue>) ensures strs_as_values(p@, r@) { unimplemented!() }
+pub uninterp spec fn char_boundary(s: Seq<char>, at: usize) -> bool;       // `at` is 0, the byte length, or the first byte of a character
+pub uninterp spec fn str_split_at(s: Seq<char>, at: usize) -> (Seq<char>, Seq<char>);
+#[verifier::external_body] pub fn s_is_char_boundary(s: &String, at: usize) -> (r: bool) ensures r == char_boundary(s@, at) { unimplemented!() }
+/// str::split_at PANICS when `at` is not on a character boundary (or past the end): that is its precondition
+#[verifier::external_body] pub fn s_split_at(s: &String, at: usize) -> (r: (&str, &str))
+    requires char_boundary(s@, at)
+    ensures r.0@ == str_split_at(s@, at).0, r.1@ == str_split_at(s@, at).1 { unimplemented!() }
+pub assume_specification<T>[ <[T]>::reverse ](s: &mut [T]) ensures final(s)@ == old(s)@.reverse();
+// UTF-8: the text a byte string spells, None when it is not valid UTF-8
+pub uninterp spec fn utf8_decode(b: Seq<u8>) -> Option<Seq<char>>;
+pub uninterp spec fn utf8_encode(s: Seq<char>) -> Seq<u8>;
+pub uninterp spec fn utf8_lossy(b: Seq<u8>) -> Seq<char>;
+#[verifier::external_body] pub struct FromUtf8Error { _p: u8 }
+#[verifier::external_body] pub struct CowStr { _p: u8 }
+impl CowStr { pub uninterp spec fn view(&self) -> Seq<char>; }
+#[verifier::external_body] pub fn s_from_utf8(v: Vec<u8>) -> (r: Result<String, FromUtf8Error>)
+    ensures (match utf8_decode(v@) { Some(t) => r is Ok && r->Ok_0@ == t, None => r is Err }) { unimplemented!() }
+#[verifier::external_body] pub fn s_from_utf8_lossy(v: &[u8]) -> (r: CowStr) ensures r@ == utf8_lossy(v@) { unimplemented!() }
+#[verifier::external_body] pub fn s_into_owned(c: CowStr) -> (r: String) ensures r@ == c@ { unimplemented!() }
+#[verifier::external_body] pub fn s_into_bytes(s: String) -> (r: Vec<u8>) ensures r@ == utf8_encode(s@) { unimplemented!() }
+#[verifier::external_body] pub fn s_as_slice(b: &CelBytes) -> (r: &[u8]) ensures r@ == b@ { unimplemented!() }
+#[verifier::external_body] pub fn s_map_err<T, E, F, O: FnOnce(E) -> F>(r: Result<T, E>, f: O) -> (out: Result<T, F>)
+    ensures r is Ok ==> out is Ok && out->Ok_0 == r->Ok_0, r is Err ==> out is Err { unimplemented!() }
+impl vstd::std_specs::convert::IntoSpecImpl<Vec<u8>> for CelBytes { open spec fn obeys_into_spec() -> bool { true } closed spec fn into_spec(self) -> Vec<u8> { self.inner } }
+pub broadcast proof fn lemma_celbytes_into(b: CelBytes) ensures #[trigger] <CelBytes as vstd::std_specs::convert::IntoSpec<Vec<u8>>>::into_spec(b)@ == b@ {}
 pub trait SLen { spec fn slen(&self) -> nat; }
 impl SLen for String { open spec fn slen(&self) -> nat { utf8_len(self@) } }
 impl SLen for CelBytes { open spec fn slen(&self) -> nat { self@.len() } }
 impl SLen for Vec<CelValue> { open spec fn slen(&self) -> nat { self@.len() } }
-#[verifier::external_body] pub fn s_len<T: SLen>(t: T) -> (r: usize) ensures r == t.slen() { unimplemented!() }
+#[verifier::external_body] pub fn s_len<T: SLen>(t: &T) -> (r: usize) ensures r == t.slen() { unimplemented!() }
 
 // ---- uninterpreted chrono accessors, generic in the time zone: civil-time fields of the instant in that zone ------------------
 #[verifier::external_body] pub struct Tz { _p: u8 }
 #[verifier::external_body] pub struct Weekday { _p: u8 }
 #[verifier::external_body] pub struct NaiveTime { _p: u8 }
-pub uninterp spec fn f_weekday<T>(t: DateTime<T>) -> Weekday;
+pub uninterp spec fn f_weekday<D>(t: D) -> Weekday;
 pub uninterp spec fn days_from_sunday(w: Weekday) -> u32;      // 0 = Sunday
-pub uninterp spec fn f_time<T>(t: DateTime<T>) -> NaiveTime;
-pub uninterp spec fn f_hour(t: NaiveTime) -> u32;
-pub uninterp spec fn f_minute(t: NaiveTime) -> u32;
-pub uninterp spec fn f_second(t: NaiveTime) -> u32;
-pub uninterp spec fn f_month0<T>(t: DateTime<T>) -> u32;
-pub uninterp spec fn f_day<T>(t: DateTime<T>) -> u32;          // 1-based day of month
-pub uninterp spec fn f_ordinal0<T>(t: DateTime<T>) -> u32;
-pub uninterp spec fn f_year<T>(t: DateTime<T>) -> i32;
-pub uninterp spec fn f_millis<T>(t: DateTime<T>) -> u32;
+pub uninterp spec fn days_from_monday(w: Weekday) -> u32;
+pub uninterp spec fn f_time<D>(t: D) -> NaiveTime;
+pub uninterp spec fn f_hour<D>(t: D) -> u32;
+pub uninterp spec fn f_hour12<D>(t: D) -> (bool, u32);
+pub uninterp spec fn f_minute<D>(t: D) -> u32;
+pub uninterp spec fn f_second<D>(t: D) -> u32;
+pub uninterp spec fn f_nanosecond<D>(t: D) -> u32;
+pub uninterp spec fn f_month0<D>(t: D) -> u32;
+pub uninterp spec fn f_month<D>(t: D) -> u32;
+pub uninterp spec fn f_day<D>(t: D) -> u32;          // 1-based day of month
+pub uninterp spec fn f_day0<D>(t: D) -> u32;
+pub uninterp spec fn f_ordinal0<D>(t: D) -> u32;
+pub uninterp spec fn f_ordinal<D>(t: D) -> u32;
+pub uninterp spec fn f_year<D>(t: D) -> i32;
+pub uninterp spec fn f_millis<D>(t: D) -> u32;
+pub uninterp spec fn f_micros<D>(t: D) -> u32;
+pub uninterp spec fn f_nanos<D>(t: D) -> u32;
+pub uninterp spec fn f_naive_utc<D>(t: D) -> NaiveDateTime;
+pub uninterp spec fn f_naive_local<D>(t: D) -> NaiveDateTime;
+pub uninterp spec fn f_to_utc<D>(t: D) -> DateTime<Utc>;
 pub uninterp spec fn zone_of(name: Seq<char>) -> Option<Tz>;
 pub uninterp spec fn in_zone(t: DateTime<Utc>, z: Tz) -> DateTime<Tz>;
 pub uninterp spec fn d_hours(d: Duration) -> i64;
 pub uninterp spec fn d_minutes(d: Duration) -> i64;
 pub uninterp spec fn d_seconds(d: Duration) -> i64;
+pub uninterp spec fn d_millis(d: Duration) -> i64;
+pub uninterp spec fn d_days(d: Duration) -> i64;
 pub uninterp spec fn d_subsec_nanos(d: Duration) -> i32;
-#[verifier::external_body] pub fn s_weekday<T>(t: DateTime<T>) -> (r: Weekday) ensures r == f_weekday(t) { unimplemented!() }
+pub uninterp spec fn d_subsec_millis(d: Duration) -> i32;
+pub uninterp spec fn d_abs(d: Duration) -> Duration;
+#[verifier::external_body] pub struct NaiveDateTime { _p: u8 }
+#[verifier::external_body] pub fn s_weekday<D>(t: D) -> (r: Weekday) ensures r == f_weekday(t) { unimplemented!() }
 #[verifier::external_body] pub fn s_num_days_from_sunday(w: Weekday) -> (r: u32) ensures r == days_from_sunday(w), r < 7 { unimplemented!() }
 #[verifier::external_body] pub fn s_number_from_sunday(w: Weekday) -> (r: u32) ensures r == days_from_sunday(w) + 1, r <= 7 { unimplemented!() }
-#[verifier::external_body] pub fn s_time<T>(t: DateTime<T>) -> (r: NaiveTime) ensures r == f_time(t) { unimplemented!() }
-#[verifier::external_body] pub fn s_hour(t: NaiveTime) -> (r: u32) ensures r == f_hour(t) { unimplemented!() }
-#[verifier::external_body] pub fn s_minute(t: NaiveTime) -> (r: u32) ensures r == f_minute(t) { unimplemented!() }
-#[verifier::external_body] pub fn s_second(t: NaiveTime) -> (r: u32) ensures r == f_second(t) { unimplemented!() }
-#[verifier::external_body] pub fn s_month0<T>(t: DateTime<T>) -> (r: u32) ensures r == f_month0(t) { unimplemented!() }
-#[verifier::external_body] pub fn s_day<T>(t: DateTime<T>) -> (r: u32) ensures r == f_day(t) { unimplemented!() }
-#[verifier::external_body] pub fn s_ordinal0<T>(t: DateTime<T>) -> (r: u32) ensures r == f_ordinal0(t) { unimplemented!() }
-#[verifier::external_body] pub fn s_year<T>(t: DateTime<T>) -> (r: i32) ensures r == f_year(t) { unimplemented!() }
-#[verifier::external_body] pub fn s_timestamp_subsec_millis<T>(t: DateTime<T>) -> (r: u32) ensures r == f_millis(t) { unimplemented!() }
+#[verifier::external_body] pub fn s_num_days_from_monday(w: Weekday) -> (r: u32) ensures r == days_from_monday(w), r < 7 { unimplemented!() }
+#[verifier::external_body] pub fn s_number_from_monday(w: Weekday) -> (r: u32) ensures r == days_from_monday(w) + 1, r <= 7 { unimplemented!() }
+#[verifier::external_body] pub fn s_time<D>(t: D) -> (r: NaiveTime) ensures r == f_time(t) { unimplemented!() }
+#[verifier::external_body] pub fn s_hour<D>(t: D) -> (r: u32) ensures r == f_hour(t) { unimplemented!() }
+#[verifier::external_body] pub fn s_hour12<D>(t: D) -> (r: (bool, u32)) ensures r == f_hour12(t) { unimplemented!() }
+#[verifier::external_body] pub fn s_minute<D>(t: D) -> (r: u32) ensures r == f_minute(t) { unimplemented!() }
+#[verifier::external_body] pub fn s_second<D>(t: D) -> (r: u32) ensures r == f_second(t) { unimplemented!() }
+#[verifier::external_body] pub fn s_nanosecond<D>(t: D) -> (r: u32) ensures r == f_nanosecond(t) { unimplemented!() }
+#[verifier::external_body] pub fn s_month0<D>(t: D) -> (r: u32) ensures r == f_month0(t) { unimplemented!() }
+#[verifier::external_body] pub fn s_month<D>(t: D) -> (r: u32) ensures r == f_month(t) { unimplemented!() }
+#[verifier::external_body] pub fn s_day<D>(t: D) -> (r: u32) ensures r == f_day(t) { unimplemented!() }
+#[verifier::external_body] pub fn s_day0<D>(t: D) -> (r: u32) ensures r == f_day0(t) { unimplemented!() }
+#[verifier::external_body] pub fn s_ordinal0<D>(t: D) -> (r: u32) ensures r == f_ordinal0(t) { unimplemented!() }
+#[verifier::external_body] pub fn s_ordinal<D>(t: D) -> (r: u32) ensures r == f_ordinal(t) { unimplemented!() }
+#[verifier::external_body] pub fn s_year<D>(t: D) -> (r: i32) ensures r == f_year(t) { unimplemented!() }
+#[verifier::external_body] pub fn s_timestamp_subsec_millis<D>(t: D) -> (r: u32) ensures r == f_millis(t) { unimplemented!() }
+#[verifier::external_body] pub fn s_timestamp_subsec_micros<D>(t: D) -> (r: u32) ensures r == f_micros(t) { unimplemented!() }
+#[verifier::external_body] pub fn s_timestamp_subsec_nanos<D>(t: D) -> (r: u32) ensures r == f_nanos(t) { unimplemented!() }
+#[verifier::external_body] pub fn s_naive_utc<D>(t: D) -> (r: NaiveDateTime) ensures r == f_naive_utc(t) { unimplemented!() }
+#[verifier::external_body] pub fn s_naive_local<D>(t: D) -> (r: NaiveDateTime) ensures r == f_naive_local(t) { unimplemented!() }
+#[verifier::external_body] pub fn s_to_utc<D>(t: D) -> (r: DateTime<Utc>) ensures r == f_to_utc(t) { unimplemented!() }
 #[verifier::external_body] pub fn s_num_hours(d: Duration) -> (r: i64) ensures r == d_hours(d) { unimplemented!() }
 #[verifier::external_body] pub fn s_num_minutes(d: Duration) -> (r: i64) ensures r == d_minutes(d) { unimplemented!() }
 #[verifier::external_body] pub fn s_num_seconds(d: Duration) -> (r: i64) ensures r == d_seconds(d) { unimplemented!() }
+#[verifier::external_body] pub fn s_num_milliseconds(d: Duration) -> (r: i64) ensures r == d_millis(d) { unimplemented!() }
+#[verifier::external_body] pub fn s_num_days(d: Duration) -> (r: i64) ensures r == d_days(d) { unimplemented!() }
 #[verifier::external_body] pub fn s_subsec_nanos(d: Duration) -> (r: i32) ensures r == d_subsec_nanos(d), -1_000_000_000 < r < 1_000_000_000 { unimplemented!() }
+#[verifier::external_body] pub fn s_subsec_millis(d: Duration) -> (r: i32) ensures r == d_subsec_millis(d), -1000 < r < 1000 { unimplemented!() }
+#[verifier::external_body] pub fn s_abs(d: Duration) -> (r: Duration) ensures r == d_abs(d) { unimplemented!() }
 pub mod helpers_mod { }
 /// the named IANA zone or an error; the instant is the same, seen in that zone
 #[verifier::external_body] pub fn get_adjusted_datetime(this: DateTime<Utc>, timezone: String) -> (r: CelResult<DateTime<Tz>>)
@@ -112,7 +180,7 @@ def build():
     U.raw(PRELUDE, 'uninterpreted std / chrono functions and trampolines')
     U.raw(C.STD_SPECS, 'assumed std specs')
     U.raw(C.AXIOMS, 'axioms')
-    U.extract(C.CV, 'impl CelValue', fns=C.ambient(['from_string']), others='stub')
+    U.extract(C.CV, 'impl CelValue', fns=C.ambient(['from_string']) | {'from_bytes': A(stub=True, ret='r', ensures=[('def', 'r is Bytes && r->Bytes_0@ == val@')])}, others='stub')
     U.extract(C.CV, 'impl From<&str> for CelValue', fns={'from': A(stub=True)})
     # ---- strings -----------------------------------------------------------------------------------------------------------
     S = DFS + 'string/'
@@ -124,6 +192,29 @@ def build():
     U.extract(S + 'ends_with.rs', 'mod ends_with_i_methods', fns={'ends_with_i#0': pred('ends_with_i', 'str_ends_with(str_lower(this@), str_lower(needle@))')})
     U.extract(S + 'split.rs', 'mod split', fns={'split#0': A(ret='r', ensures=[('left_to_right_pieces', 'strs_as_values(str_split(this@, needle@), r@)')], method_table=TABLE, props=('C15', 'C01'))})
     U.extract(S + 'split.rs', 'mod rsplit', fns={'rsplit#0': A(ret='r', ensures=[('right_to_left_pieces', 'strs_as_values(str_rsplit(this@, needle@), r@)')], method_table=TABLE, props=('C15', 'C01'))})
+    U.extract(C.CE, 'impl CelError', fns={'value': A(ret='r', ensures=[('kind', 'r is Value')], props=('C01',))}, others='stub')
+    U.extract(S + 'split.rs', 'mod split_at', fns={'split_at#0': A(ret='r', ensures=[
+        ('negative_index_is_an_error', 'at < 0 ==> r is Err'),
+        ('index_off_a_character_boundary_is_an_error', 'at >= 0 && !char_boundary(this@, at as usize) ==> r is Err'),
+        ('two_pieces_at_the_boundary', 'at >= 0 && char_boundary(this@, at as usize) ==> r is Ok && r->Ok_0@.len() == 2'),
+    ], method_table=TABLE, props=('C15', 'C01'))})
+    U.extract(C.CB, 'impl Into<Vec<u8>> for CelBytes', fns={'into': A(props=('C01',))})
+    U.raw('pub mod string_type { use super::*;', 'file module')
+    U.extract('rscel/src/context/type_funcs/string_type.rs', 'mod methods', qual_prefix='string_type', fns={
+        'string#3': A(ret='r', ensures=[('identity', 'r == arg')], method_table=TABLE, props=('C14', 'C01')),
+        'string#4': A(ret='r', ensures=[('the_text_the_bytes_spell_or_an_error_for_invalid_utf8',
+                                          '(match utf8_decode(arg@) { Some(t) => r is Ok && r->Ok_0@ == t, None => r is Err })')],
+                      ret_type='CelResult<String>', method_table=TABLE, rewrites=[('String::from_utf8_lossy', 's_from_utf8_lossy', 'R2m: std associated function -> trampoline over an uninterpreted function'),
+                                                    ('String::from_utf8', 's_from_utf8', 'R2m: std associated function -> trampoline over an uninterpreted function'),
+                                                    ('|_|', '|_e|', 'Verus does not accept the `_` pattern as a closure parameter')], props=('C14', 'C01')),
+    })
+    U.raw('}', 'end file module')
+    U.raw('pub mod bytes_type { use super::*;', 'file module')
+    U.extract('rscel/src/context/type_funcs/bytes_type.rs', 'mod methods', qual_prefix='bytes_type', fns={
+        'bytes#0': A(ret='r', ensures=[('utf8_encoding', 'r is Bytes && r->Bytes_0@ == utf8_encode(arg@)')], method_table=TABLE, props=('C14', 'C01')),
+        'bytes#1': A(ret='r', ensures=[('identity', 'r == CelValue::Bytes(arg)')], method_table=TABLE, props=('C14', 'C01')),
+    })
+    U.raw('}', 'end file module')
     sz = lambda who, what: A(ret='r', ensures=[('element_count', f'r == {what}')], method_table=TABLE, props=('C06', 'C15', 'C01'))
     U.raw('pub mod size { use super::*;', 'file module')
     U.extract(DFS + 'size.rs', 'mod methods', qual_prefix='size', fns={
@@ -146,7 +237,7 @@ def build():
     acc('get_day_of_year.rs', 'get_day_of_year', 'f_ordinal0({t}) as i64')
     acc('get_full_year.rs', 'get_full_year', 'f_year({t}) as i64')
     acc('get_month.rs', 'get_month', 'f_month0({t}) as i64')
-    acc('get_hours.rs', 'get_hours', 'f_hour(f_time({t})) as i64', extra=A(ret='r', ensures=[('total_whole_hours', 'r == d_hours(this)')], method_table=TABLE, props=D))
+    acc('get_hours.rs', 'get_hours', 'f_hour(f_time::<_>({t})) as i64', extra=A(ret='r', ensures=[('total_whole_hours', 'r == d_hours(this)')], method_table=TABLE, props=D))
     acc('get_minutes.rs', 'get_minutes', 'f_minute(f_time({t})) as i64', extra=A(ret='r', ensures=[('total_whole_minutes', 'r == d_minutes(this)')], method_table=TABLE, props=D))
     acc('get_seconds.rs', 'get_seconds', 'f_second(f_time({t})) as i64', extra=A(ret='r', ensures=[('total_whole_seconds', 'r == d_seconds(this)')], method_table=TABLE, props=D))
     acc('get_milliseconds.rs', 'get_milliseconds', 'f_millis({t}) as i64', extra=A(ret='r', ensures=[('millisecond_part', 'd_subsec_nanos(this) >= 0 ==> r == d_subsec_nanos(this) as i64 / 1000000i64'), ('below_one_second', '-1000 < r < 1000')], method_table=TABLE, props=D))
